@@ -1044,6 +1044,54 @@ theorem C09_never_silent_binary {F} (ops : FloatOps F) (lookup : Int → RefLook
 
 /-! ## STRING -/
 
+/-- STRING, accept (any configuration): an apostrophe, any body of the string grammar (`StringBody`: non-q characters, `''`,
+    `\\`, and every control directive `\S\c`, `\PA\`, `\X\hh`, `\X2\…\X0\`, `\X4\…\X0\`), an apostrophe, followed by
+    blanks and a delimiter: read with no error to exactly that literal (stepcode keeps the encoded form), the stream stops
+    at the delimiter.  The proof is the quote-parity argument: at every unit boundary `allDelimsEscaped` is true again and
+    the text never ends in `\S\` (`litLoop_body`).  Note the stream's `skipws` flag is left switched off. -/
+theorem C09_accept_string_body {F} (ops : FloatOps F) (cfg : LexCfg) (lookup : Int → RefLookup) (nullable : Bool)
+    (b sp rest : List Byte) (d : Byte) (hb : StringBody b) (hsp : sp.all isSpace = true) (hd : d = 44 ∨ d = 41) :
+    attrRead ops cfg lookup .string nullable (IStream.ofBytes (39 :: (b ++ [39]) ++ sp ++ d :: rest)) =
+      .ok ⟨.null, .str (39 :: (b ++ [39])),
+        { left := sp.reverse ++ (39 :: (b ++ [39])).reverse, right := d :: rest, skipws := false }⟩ := by
+  have hdd : isDelim attrDelims d = true := by rcases hd with rfl | rfl <;> decide
+  have hdn : isSpace d = false := by rcases hd with rfl | rfl <;> decide
+  have hpre : (IStream.ofBytes (39 :: (b ++ [39]) ++ sp ++ d :: rest)).ws =
+      { left := [], right := 39 :: (b ++ (39 :: (sp ++ d :: rest))) } := by
+    have := ws_good0 [] 39 (b ++ (39 :: (sp ++ d :: rest))) true (by decide)
+    simpa [IStream.ofBytes] using this
+  -- the automaton
+  obtain ⟨e1, e2⟩ := litLoop_body b hb [39] (39 :: (sp ++ d :: rest)) rfl
+  have hcont : ∃ c t, sp ++ d :: rest = c :: t ∧ c ≠ 39 := by
+    cases sp with
+    | nil => exact ⟨d, rest, rfl, by rcases hd with rfl | rfl <;> decide⟩
+    | cons a sp' =>
+      have ha : isSpace a = true := by simp at hsp; exact hsp.1
+      exact ⟨a, sp' ++ d :: rest, rfl, by intro e; subst e; revert ha; decide⟩
+  obtain ⟨c, t, hct, hc39⟩ := hcont
+  have hll : litLoop [39] true (b ++ 39 :: (sp ++ d :: rest)) =
+      (39 :: (b.reverse ++ [39]), sp ++ d :: rest, false, false) := by
+    rw [e1, litLoop_quote, e2]
+    simp only [Bool.false_eq_true, if_false, Bool.not_true]
+    rw [hct]
+    have : (c == 39) = false := by simpa using hc39
+    simp [litLoop, this]
+  have hcri := cri_delim cfg (39 :: (b.reverse ++ [39])) sp rest d false false Sev.null hsp hdd hdn
+  simp only [attrRead, hpre, peekC_good]
+  simp only [show ((39 : Byte) == 36 || (39 : Byte) == 44 || (39 : Byte) == 41) = false from by decide, Bool.false_eq_true, if_false,
+    stringRead, IStream.setSkipws, getLiteralStr, ws_good0 _ _ _ _ (show isSpace 39 = false from by decide), IStream.good,
+    Bool.not_false, Bool.and_self, Bool.not_true, beq_self_eq_true, if_true, hll]
+  simp [hcri]
+
+
+/-- STRING, accept, for the executable recogniser of the grammar: every token `isString` accepts -/
+theorem C09_accept_string {F} (ops : FloatOps F) (cfg : LexCfg) (lookup : Int → RefLookup) (nullable : Bool)
+    (tok sp rest : List Byte) (d : Byte) (htok : isString tok = true) (hsp : sp.all isSpace = true) (hd : d = 44 ∨ d = 41) :
+    attrRead ops cfg lookup .string nullable (IStream.ofBytes (tok ++ sp ++ d :: rest)) =
+      .ok ⟨.null, .str tok, { left := sp.reverse ++ tok.reverse, right := d :: rest, skipws := false }⟩ := by
+  obtain ⟨b, rfl, hb⟩ := isString_body tok htok
+  exact C09_accept_string_body ops cfg lookup nullable b sp rest d hb hsp hd
+
 /-- STRING, never silent (any configuration that keeps the severity found after `$`): whenever
     `STEPattribute::STEPread` flags no error, for *any* input bytes, then either
     (a) the input is blanks, a literal that starts and ends with an apostrophe, blanks, and the stream rests at the end or in
